@@ -58,6 +58,12 @@ type codecEnv struct {
 	nCBR   int
 	nSkip  int
 	panics int
+
+	obsDetail string // what a directed program is doing (goes into the sample of an observation)
+	nestWalk  bool   // the nesting walk is running
+	encErr    string // kind of the encoder error oracleSlab met last ("" = none)
+	nestRej   bool   // oracleSlab: the register was rejected for its nesting depth
+	encPanic  bool   // EncodeSlab panicked on some slab of the current write set (sticky until the next commit)
 }
 
 func (e *codecEnv) violation(prop, what string) {
@@ -84,6 +90,16 @@ type decOutcome struct {
 // guardedDecode runs DecodeSlab and, when it succeeds, ByteSize and ChildStorables, under recover
 // with a 2 s watchdog.
 func guardedDecode(id atree.SlabID, data []byte) decOutcome {
+	o := guardedDecodeT(id, data, 2*time.Second)
+	if o.class == "TIMEOUT" {
+		// a loaded machine can starve the goroutine for seconds: only a call that does not return
+		// within a minute either is reported as a hang
+		o = guardedDecodeT(id, data, 60*time.Second)
+	}
+	return o
+}
+
+func guardedDecodeT(id atree.SlabID, data []byte, limit time.Duration) decOutcome {
 	ch := make(chan decOutcome, 1)
 	go func() {
 		var out decOutcome
@@ -110,7 +126,7 @@ func guardedDecode(id atree.SlabID, data []byte) decOutcome {
 	select {
 	case o := <-ch:
 		return o
-	case <-time.After(2 * time.Second):
+	case <-time.After(limit):
 		return decOutcome{class: "TIMEOUT"}
 	}
 }
@@ -418,7 +434,7 @@ func (e *codecEnv) emitDEC(id atree.SlabID, data []byte) decOutcome {
 		e.panics++
 		e.violation("C19", fmt.Sprintf("DecodeSlab/ByteSize/ChildStorables panicked (%s) on id=%s data=%s", o.detail, hx.IDStr(id), hex.EncodeToString(data)))
 	case "TIMEOUT":
-		e.violation("C19", fmt.Sprintf("DecodeSlab did not return within 2s on id=%s data=%s", hx.IDStr(id), hex.EncodeToString(data)))
+		e.violation("C19", fmt.Sprintf("DecodeSlab did not return within 2 s, nor within 60 s on a second call, on id=%s data=%s", hx.IDStr(id), hex.EncodeToString(data)))
 	}
 	if r := skipReason(data); r != "" {
 		e.st.Hit("skip:" + r)
@@ -498,8 +514,30 @@ func hasRefChild(s atree.Slab) bool {
 // oracleSlab checks an in-memory slab against its own encoding; it returns the encoding and the
 // dump of the decoded register.
 func (e *codecEnv) oracleSlab(s atree.Slab) ([]byte, string) {
+	e.encErr, e.nestRej = "", false
 	reg, err, pan := guardedEncode(s)
+	if pan == "" && err != nil {
+		// The two limits of the format the encoder enforces with an ERROR (nothing is written): an
+		// extra-data index is one byte, a digest level at most maxDigestLevel.  Not a violation of C07
+		// (which speaks about registers the library produced): an OBSERVATION, tied to the model
+		// (`ENCERR` line: encodeSlabE must fail the same way).
+		switch msg := err.Error(); {
+		case strings.Contains(msg, "extra data index") && strings.Contains(msg, "exceeds limit"):
+			e.encErr = "xdindex"
+			e.st.Hit("observation:extra-data-index-limit")
+			e.noteObservation("extra-data-index-limit", fmt.Sprintf("EncodeSlab fails (%s): %s", msg, e.obsDetail))
+			return nil, ""
+		case strings.Contains(msg, "exceeds max digest level"):
+			e.encErr = "level"
+			e.st.Hit("observation:digest-level-limit")
+			e.noteObservation("digest-level-limit", fmt.Sprintf("EncodeSlab fails (%s) under a caller-supplied digester with more than maxDigestLevel levels", msg))
+			return nil, ""
+		}
+	}
 	if pan != "" || err != nil {
+		if pan != "" {
+			e.encPanic = true // (the commit of this write set would crash the process: it is skipped)
+		}
 		e.violation("C07", fmt.Sprintf("EncodeSlab failed on %s: %v %s", atree.VerifDumpSlab(s, hx.Describe), err, pan))
 		return nil, ""
 	}
@@ -525,10 +563,20 @@ func (e *codecEnv) oracleSlab(s atree.Slab) ([]byte, string) {
 	if isData && !isRoot && atree.VerifSlabNext(s) == atree.SlabIDUndefined {
 		omitted = 16
 	}
+	// ... exactly: the bytes a compact-encoded child does not write in place are its digests (8 each),
+	// its single-element heads (1 each), its keys, and the difference between the hkeyElements head
+	// (8 bytes) and a plain array head; computed from the slab's dump, independently of the encoder
+	hoisted, hok := dumpHoisted(want)
+	if !hok {
+		e.violation("C06", fmt.Sprintf("slab %s: dump does not parse: %s", hx.IDStr(id), want))
+	}
 	law := int(s.ByteSize()) + extra + ied - omitted
-	if (!compact && len(reg) != law) || (compact && len(reg) > law) {
-		e.violation("C06", fmt.Sprintf("slab %s: encoded length %d, ByteSize %d, extra data %d, inlined extra data %d, omitted next %d, compact %v: %s",
-			hx.IDStr(id), len(reg), s.ByteSize(), extra, ied, omitted, compact, hex.EncodeToString(reg)))
+	if len(reg)+hoisted != law {
+		e.violation("C06", fmt.Sprintf("slab %s: encoded length %d + hoisted %d, ByteSize %d, extra data %d, inlined extra data %d, omitted next %d, compact %v: %s",
+			hx.IDStr(id), len(reg), hoisted, s.ByteSize(), extra, ied, omitted, compact, hex.EncodeToString(reg)))
+	}
+	if (hoisted != 0) != compact {
+		e.violation("C06", fmt.Sprintf("slab %s: %d hoisted bytes expected from the content, compact entries in the register: %v", hx.IDStr(id), hoisted, compact))
 	}
 	if compact {
 		e.st.Hit("c06:compact-shorter")
@@ -561,6 +609,17 @@ func (e *codecEnv) oracleSlab(s atree.Slab) ([]byte, string) {
 
 	// C06/C07: decode the register
 	o := guardedDecode(id, reg)
+	if o.class == "err" && strings.Contains(o.detail, "exceeded max nested level") {
+		// The caller's DecMode bounds the nesting of a register (cbor.DecOptions{}: 32 levels); the
+		// library encodes deeper values.  An OBSERVATION about the caller's configuration, tied to the
+		// model: its decoder must reject the register too and Slab.vdepth must exceed the limit.
+		e.nestRej = true
+		e.st.Hit("observation:decmode-nesting-limit:register-not-decodable")
+		if !e.nestWalk {
+			e.noteObservation("decmode-nesting-limit", fmt.Sprintf("register of slab %s is rejected by the decoder for its nesting depth (%s)", hx.IDStr(id), o.detail))
+		}
+		return reg, ""
+	}
 	if o.class != "ok" {
 		e.violation("C07", fmt.Sprintf("register of slab %s does not decode (%s %s): %s", hx.IDStr(id), o.class, o.detail, hex.EncodeToString(reg)))
 		return reg, ""
@@ -590,6 +649,13 @@ func (e *codecEnv) oracleSlab(s atree.Slab) ([]byte, string) {
 func (e *codecEnv) emitSlab(s atree.Slab) []byte {
 	reg, decDump := e.oracleSlab(s)
 	if reg == nil {
+		if e.encErr != "" {
+			dump := atree.VerifDumpSlab(s, hx.Describe)
+			if dumpCovered(dump) {
+				e.w.L("ENCERR %s | %s", e.encErr, dump)
+				e.st.Hit("encerr:" + e.encErr)
+			}
+		}
 		return nil
 	}
 	dump := atree.VerifDumpSlab(s, hx.Describe)
@@ -597,7 +663,9 @@ func (e *codecEnv) emitSlab(s atree.Slab) []byte {
 		e.st.Hit("skip:enc")
 		return reg
 	}
-	if decDump != "" && decDump != dump {
+	if e.nestRej {
+		e.w.L("ENC %s size=%d | %s | !nest", hex.EncodeToString(reg), s.ByteSize(), dump)
+	} else if decDump != "" && decDump != dump {
 		e.w.L("ENC %s size=%d | %s | %s", hex.EncodeToString(reg), s.ByteSize(), dump, decDump)
 	} else {
 		e.w.L("ENC %s size=%d | %s", hex.EncodeToString(reg), s.ByteSize(), dump)
@@ -969,6 +1037,10 @@ func codecStream(cfg *Config) *hx.Stats {
 		st.Programs++
 		st.Ops += nOps
 	}
+	// directed programs: shapes the random programs do not reach (codecdirected.go)
+	if len(st.Violations) <= 20 {
+		e.runDirectedPrograms(rng, true)
+	}
 	atree.VerifSetThreshold(1024)
 	st.TraceLines = w.Lines
 	st.Dist["ENC"] = e.nENC
@@ -979,7 +1051,11 @@ func codecStream(cfg *Config) *hx.Stats {
 	for _, tag := range []string{"enc:data-root", "enc:data-next", "enc:data-last", "enc:data-with-ref", "enc:meta-root", "enc:meta-nonroot", "enc:storable", "v0:ok",
 		"enc:map-root", "enc:map-next", "enc:map-last", "enc:map-group", "enc:map-inline-group", "enc:map-external-ref", "enc:map-single-elements",
 		"enc:mmeta-root", "enc:mmeta-nonroot", "v0map:ok",
-		"enc:has-inlined", "enc:inlined-array", "enc:inlined-map", "enc:compact", "enc:typeinfo-ref", "enc:wrapper"} {
+		"enc:has-inlined", "enc:inlined-array", "enc:inlined-map", "enc:compact", "enc:typeinfo-ref", "enc:wrapper",
+		"directed:storable-slab-with-ref", "directed:composite-shape-0", "directed:composite-shape-2", "directed:composite-shape-4",
+		"directed:max-digest-level-committed", "observation:digest-level-limit", "directed:extra-data-256-entries-committed",
+		"observation:extra-data-index-limit", "encerr:xdindex", "encerr:level", "directed:extra-data-limit-recovered",
+		"observation:decmode-nesting-limit", "directed:nesting-reloaded:arr", "directed:nesting-reloaded:map", "directed:nesting-reloaded:warr"} {
 		// (a run cut short by violations is judged by those, not by its coverage)
 		if st.Dist[tag] == 0 && st.HarnessErr == "" && len(st.Violations) == 0 {
 			st.HarnessErr = "codec stream never produced " + tag
@@ -1379,7 +1455,7 @@ func malformedStream(cfg *Config) *hx.Stats {
 	}
 
 	caseNo := 0
-	one := func(id atree.SlabID, data []byte, how string) {
+	one := func(id atree.SlabID, data []byte, how string) string {
 		caseNo++
 		e.step = caseNo
 		o := e.emitDEC(id, data)
@@ -1396,6 +1472,7 @@ func malformedStream(cfg *Config) *hx.Stats {
 		if o.class == "ok" {
 			e.reencodeAccepted(id, data, o)
 		}
+		return o.class
 	}
 
 	// 3. truncation at every length (all registers up to 400 bytes, two per kind beyond that)
@@ -1448,6 +1525,37 @@ func malformedStream(cfg *Config) *hx.Stats {
 		one(id, m, how)
 		if len(st.Violations) >= 50 {
 			break
+		}
+	}
+
+	// 5b. registers built from the slab grammar with per-field valid / boundary / invalid choices
+	// (grammar.go); most of them are accepted, a rejected one fails exactly one check
+	nGram := int(24000 * cfg.Scale)
+	gramOK, gramSeen := 0, map[string]bool{}
+	for i := 0; i < nGram && len(st.Violations) < 50; i++ {
+		data, devs := genRegister(cfg.Seed*1000003+int64(i), i%3 == 2)
+		if gramSeen[string(data)] {
+			continue
+		}
+		gramSeen[string(data)] = true
+		id := hx.MkIDn(0x0102030405060708, uint64(1+i%200))
+		class := one(id, data, "grammar")
+		st.Hit("gram:" + class)
+		if class == "ok" {
+			gramOK++
+			st.Hit("gram:ok:" + regKind(data))
+		}
+		if len(devs) == 0 {
+			st.Hit("gram:dev:none:" + class)
+		}
+		for _, d := range devs {
+			st.Hit("gram:dev:" + d + ":" + class)
+		}
+	}
+	if n := len(gramSeen); n > 0 {
+		st.Samples = append(st.Samples, fmt.Sprintf("grammar-aware registers: %d distinct, %d accepted (%d%%)", n, gramOK, 100*gramOK/n))
+		if 100*gramOK < 30*n && st.HarnessErr == "" && len(st.Violations) == 0 {
+			st.HarnessErr = fmt.Sprintf("grammar-aware generator: only %d of %d registers accepted (< 30%%)", gramOK, n)
 		}
 	}
 
